@@ -494,7 +494,11 @@ func TestL2(t *testing.T) {
 				continue
 			}
 			stats["pairs"]++
-			exploreL2([][]string{{ms[i].Name}, {ms[j].Name}}, 400, findings, stats)
+			cap := 400
+			if tier == "thorough" {
+				cap = 20000
+			}
+			exploreL2([][]string{{ms[i].Name}, {ms[j].Name}}, cap, findings, stats)
 		}
 	}
 	// seeded triples / two-operation sequences (sampled)
